@@ -28,49 +28,49 @@ CHECKS = {
  "C02": dict(
    engine="confluence",
    category="fault_enumeration",
-   text="Every rule firing of a run is treated as a fault point. For seeded programs (3-10 public-API constructor calls over four semiring families) and seven interpretation settings (eager, lazy/reflect/normalize then reinterpret, sequential, apply_optimizer), the undisturbed run is compared - on the whole finite integer input space and at sample points of real inputs - with (a) every run in which one firing k is declined so that the fall-through chain/reflected term takes its place (all k<=K, or a seeded sample), (b) runs in which one rule function is kept from firing on non-ground operands for the whole run, and (c) the undisturbed run in two other hash worlds. Independently every firing's result is checked against the inputs of the reflected term (no new dependence). For marginals over real inputs and for Integrate, where every route shares one closed-form helper, a small executable reference model decides instead: the quadratic (log-measure) and the polynomial (integrand) are recovered from point evaluations only and integrated in closed form (sim/refint.py). A scenario corpus reaches rare structures on purpose (slice of slice, shared binders, every rank of a Gaussian square-root factor, tensor-vs-Constant arithmetic). Each run is a fresh fork of a pristine world.",
+   text="Every rule firing of a run is treated as a fault point. For seeded programs (3-10 public-API constructor calls over four semiring families) and seven interpretation settings (eager, lazy/reflect/normalize then reinterpret, sequential, apply_optimizer), the undisturbed run is compared - on the whole finite integer input space and at sample points of real inputs - with (a) every run in which one firing k is declined so that the fall-through chain/reflected term takes its place (all k<=K, or a seeded sample), (b) runs in which one rule function is kept from firing on non-ground operands for the whole run, and (c) the undisturbed run in two other hash worlds. Independently every firing's result is checked against the inputs of the reflected term (no new dependence). For marginals over real inputs and for Integrate, where every route shares one closed-form helper, a small executable reference model decides instead: the quadratic (log-measure) and the polynomial (integrand) are recovered from point evaluations only and integrated in closed form (sim/refint.py); and every value of every program of the tensor fragment (including discrete Integrate, einsum, Scatter-add, Approximate) is compared with a dense numpy reference interpreter that shares no code with funsor's rules (sim/refmodel.py). A scenario corpus of 14 families reaches rare structures on purpose (slice of slice, shared binders, every rank of a Gaussian square-root factor, tensor-vs-Constant arithmetic). Each run is a fresh fork of a pristine world.",
    design_ref="DESIGN.md section 6 (C02)",
    note="Except for real marginals and integrals (reference model), the value of a replaced term is obtained from funsor itself by another route (other rules, or the same rules on ground instances): a rule wrong on every route passes. Float tolerance rtol 1e-6; carriers respect each semiring's side condition. Decided per sampled program, not for all programs.",
    technique="deterministic simulation: rule firings as enumerated decline faults, per-rule disable, cross-hash-world agreement"),
  "C03": dict(
    engine="confluence+memo",
    category="exploration",
-   text="The scheduler decides, per constructor call of a seeded program, which interpretation is in force (eager, lazy, reflect, normalize, memoize over eager or lazy), i.e. which work is deferred; between construction and forcing it injects collections, dispatch-cache drops, fresh-name counter jumps and a failed (exception-injected) first forcing attempt; deferred terms are then forced by reinterpret (recursive or stack-free, by world), normalize+reinterpret, sequential, moment_matching or reinterpret under memoize. Every root is compared with the same program run immediately under eager in the same world (whole integer input space, sample points for real inputs, output domain, free inputs among the expression's). Memoize.interpret is wrapped and checked call by call against a model dict keyed by canonical (class, args): repeated identical calls must return the identical object and a hit must never serve different (class, args); dedicated histories reuse user cache dicts across blocks with user-defined term classes, drops, collections and re-allocated arrays.",
+   text="The scheduler decides, per constructor call of a seeded program, which interpretation is in force (eager, lazy, reflect, normalize, memoize over eager or lazy), i.e. which work is deferred; between construction and forcing it injects collections, dispatch-cache drops, fresh-name counter jumps and a failed (exception-injected) first forcing attempt; deferred terms are then forced by reinterpret (recursive or stack-free, by world), normalize+reinterpret, sequential, moment_matching or reinterpret under memoize. Every root is compared with the same program run immediately under eager in the same world (whole integer input space, sample points for real inputs, output domain, free inputs among the expression's). Memoize.interpret is wrapped and checked call by call against a model dict keyed by canonical (class, args): repeated identical calls must return the identical object and a hit must never serve different (class, args); dedicated histories reuse user cache dicts across blocks with user-defined term classes, drops, collections and re-allocated arrays; a further set of memoize histories (one cache dict across many blocks, operands dying with their block) runs in a new interpreter WITHOUT the seeded hash hook, where funsors hash by address, and compares every memoized value with the value computed directly.",
    design_ref="DESIGN.md section 6 (C03)",
    note="Reference = the real code on the trivial schedule; a rule that is wrong under every schedule passes (C01's domain). Sampled schedules, not all 6^n.",
    technique="deterministic simulation: seeded per-call interpretation schedules and between-event faults vs. immediate evaluation; Memoize checked against a reference map"),
  "C07": dict(
    engine="intern",
    category="exploration",
-   text="Every history of length <=2 (quick) / <=3 (thorough) over a reduced 21-event alphabet is enumerated completely; beyond that, seeded histories (3-30 events, <=12 live handles, 3 re-allocatable array slots) of construct (under reflect, lazy, normalize, memoize-over-lazy, eager for leaf constructors; ~20 recipes: Variable, Number 1/1.0/True, Tensor over a slot, Binary/Unary/Reduce/Subs/Lambda/Stack/Cat/Delta/Slice, domains, parametrised ops and types), drop, gc(generation), re-allocate a slot (recycled id), pickle round trip, reinterpret under reflect, touch lazy properties, an exception injected at the n-th internal call of a construct, a collection injected at the n-th executed line of reflect / __getitem__ / OpMeta.__call__ / Memoize.interpret, and RESTART. Each history runs in a fresh fork against a reference map; after every event: I1 no two live interned terms with equal constructor arguments, I2 re-construction returns the identical live object, I3 no stale object (data is the requested array), I5 pickle/reinterpret identity; at the end I4: after dropping everything and collecting, every intern table is back to its size at the start.",
+   text="Every history of length <=2 (quick) / <=3 (thorough) over a reduced 21-event alphabet is enumerated completely; beyond that, seeded histories (3-30 events, <=12 live handles, 3 re-allocatable array slots) of construct (under reflect, lazy, normalize, memoize-over-lazy, eager for leaf constructors; ~20 recipes: Variable, Number 1/1.0/True, Tensor over a slot, Binary/Unary/Reduce/Subs/Lambda/Stack/Cat/Delta/Slice, domains, parametrised ops and types), drop, gc(generation), re-allocate a slot (recycled id), pickle round trip, reinterpret under reflect, touch lazy properties, an exception injected at the n-th internal call of a construct, a collection injected at the n-th executed line of reflect / __getitem__ / OpMeta.__call__ / Memoize.interpret, and RESTART. Each history runs in a fresh fork against a reference map; after every event: I1 no two live interned terms with equal constructor arguments, I2 re-construction returns the identical live object, I3 no stale object (data is the requested array), I5 pickle/reinterpret identity (a substitution into two inputs is requested in both keyword orders); once per job an introspective sweep visits every parametrised op family of funsor.ops (36 families, each parameter with two legal values: distinct live ops carrying the values asked for, equal requests and pickle round trips identical) and a grid of 28 (dtype, shape) domains; at the end I4: after dropping everything and collecting, every intern table is back to its size at the start.",
    design_ref="DESIGN.md section 6 (C07)",
    note="Equality of arguments = Python equality for hashable atoms, identity for arrays and funsors. A constructor call that raises under an injected collection/exception is an observation. RESTART = the survivors are pickled, a *new interpreter* of the same world unpickles them under reflect (structure, identity of shared handles and of shared array-free sub-terms must survive) and continues the history; parametrised-type caches are exercised but their size is not part of I4.",
    technique="deterministic simulation: seeded construct/drop/collect/realloc/pickle histories with injected collections and exceptions against a reference intern map"),
  "C14": dict(
    engine="rng",
    category="exploration",
-   text="The simulator owns the draw stream: numpy.random.rand/randn are replaced by a per-run deterministic stream, and in edge runs ~70% of the uniform draws are replaced by boundary values of the row's own CDF (0.0, the smallest subnormal, breakpoints and their float neighbours, 1-2^-53), with reach probes for 'draw on a leading zero-mass cell' and 'draw >= final CDF value'; for small tensors (<=6 cells quick, <=16 thorough) every boundary value of every row's CDF is enumerated at every draw position. Per draw, exact identities: inputs/output of the sample; exactly one finite point per (particle, batch element), lying in the support; total mass equal to the original's, both by direct summation and through funsor's own Delta reduction rules; Gaussians: zero noise gives the (conditional) mean and unit noise vectors give columns A with A A^T = the (conditional) covariance (dense numpy model of the sampler's contract), marginal mass preserved; Gaussian mixtures (log-weights + Gaussian over a shared discrete input): inputs and total mass against a dense numpy model; Deltas: value at/away from the point, unit-mass reduce and Integrate identities. Determinism: the same stream after a prefix of unrelated events (gc, fresh-name jump, dispatch-cache drop, other work) and in a second hash world must give the byte-identical sample.",
+   text="The simulator owns the draw stream: numpy.random.rand/randn are replaced by a per-run deterministic stream, and in edge runs ~70% of the uniform draws are replaced by boundary values of the row's own CDF (0.0, the smallest subnormal, breakpoints and their float neighbours, 1-2^-53), with reach probes for 'draw on a leading zero-mass cell' and 'draw >= final CDF value'; for small tensors (<=6 cells quick, <=16 thorough) every boundary value of every row's CDF is enumerated at every draw position. Per draw, exact identities: inputs/output of the sample; exactly one finite point per (particle, batch element), lying in the support; total mass equal to the original's, both by direct summation and through funsor's own Delta reduction rules; Gaussians: zero noise gives the (conditional) mean and unit noise vectors give columns A with A A^T = the (conditional) covariance (dense numpy model of the sampler's contract), marginal mass preserved; Gaussian mixtures (log-weights + Gaussian over a shared discrete input): inputs and total mass against a dense numpy model; Integrate(sample, g, V) for every V between the sampled variables and all inputs against the definition computed densely; a deterministic corpus of Gaussian factor kinds (Cholesky, rotated, sign-flipped, over-complete with and without an offset of the white vector, rank-deficient) with the marginal mass checked against a closed form fitted through point evaluations; Deltas: value at/away from the point, unit-mass reduce, Integrate and subtraction identities, joint Deltas reduced or integrated over one of their names. Determinism: the same stream after a prefix of unrelated events (gc, fresh-name jump, dispatch-cache drop, other work) and in a second hash world must give the byte-identical sample.",
    design_ref="DESIGN.md section 6 (C14)",
    note="numpy backend only (funsor's own inverse-CDF sampler). The reduce/Integrate identities are claimed for unit-mass Deltas only, as the property states. Mass identities use rtol 1e-6; support and range are exact.",
    technique="deterministic simulation: owned random stream with injected boundary draws; per-draw exact identities; prefix/world determinism"),
  "C16": dict(
    engine="dispatch",
    category="exploration",
-   text="Every PartialDispatcher.partial_call made while sessions execute generated programs (all interpretation settings) is monitored: from the dispatcher's registered signatures alone the set of matching patterns is recomputed and the rule that runs must belong to a pattern at least as specific as every other matching one. Sessions interleave the work with dispatch-cache drops, lru_cache drops, collections (which kill and re-create parametrised classes), late registration of unrelated rules and replays, and the map (dispatcher, canonical argument-type tuple) -> rule must stay a function within the run, across sessions that use programs in a different first-use order, and across hash worlds (merged by the runner). Each dispatcher's registry is rebuilt twice in seeded permuted registration order and must resolve every observed tuple to the same rule; argument tuples are synthesised for registered term patterns by specialising positions to pool types. A user-level registry with tuple / variadic / union / frozenset / catch-all patterns is dispatched in seeded orders, and every pair of its patterns (both registration orders) plus seeded subsets form small registries whose winner is checked against an executable reference reading of the patterns (member(): is the argument in the pattern; ref_sub(): is one pattern below another): the selected rule must contain the arguments and no matching pattern may be strictly more specific. deep_type of seeded containers (including inhomogeneous ones) must be a type the container is a member of. On the reached type pool plus synthesised unions and containers of unions: reflexivity on all types and transitivity on all triples (boolean matrix product) for issubclass-as-used-for-matching and for deep_issubclass; every visited term is a deep-instance of its own precise type and of every one-parameter generalisation; deep_type(frozenset) is independent of element order.",
+   text="Every PartialDispatcher.partial_call made while sessions execute generated programs (all interpretation settings) is monitored: from the dispatcher's registered signatures alone the set of matching patterns is recomputed and the rule that runs must belong to a pattern at least as specific as every other matching one. Sessions interleave the work with dispatch-cache drops, lru_cache drops, collections (which kill and re-create parametrised classes), late registration of unrelated rules and replays, and the map (dispatcher, canonical argument-type tuple) -> rule must stay a function within the run, across sessions that use programs in a different first-use order, and across hash worlds (merged by the runner). Each dispatcher's registry is rebuilt twice in seeded permuted registration order and must resolve every observed tuple to the same rule; argument tuples are synthesised for registered term patterns by specialising positions to pool types. A user-level registry with tuple / variadic / union / frozenset / catch-all patterns is dispatched in seeded orders, and every pair of its patterns (both registration orders) plus seeded subsets form small registries whose winner is checked against an executable reference reading of the patterns (member(): is the argument in the pattern; ref_sub(): is one pattern below another): the selected rule must contain the arguments and no matching pattern may be strictly more specific. deep_type of seeded containers (including inhomogeneous ones) must be a type the container is a member of. Registries, interpretation objects and StatefulInterpretation classes are checked for isolation (a rule answers where it was registered and nowhere else; parametrised keys resolve to their origin; stacked registrations all take effect), and patterns derived from a rule's annotations are part of the user registry. On the reached type pool plus synthesised unions and containers of unions: reflexivity on all types and transitivity on all triples (boolean matrix product) for issubclass-as-used-for-matching and for deep_issubclass; every visited term is a deep-instance of its own precise type and of every one-parameter generalisation; deep_type(frozenset) is independent of element order.",
    design_ref="DESIGN.md section 6 (C16)",
    note="Specificity of one signature over another is judged at the arity of the call: variadic tails are expanded and positions compared with issubclass (equal to multipledispatch.conflict.supercedes for fixed arities); matching = issubclass on wrapped types. Synthesised tuples are generated for interpretation registries (patterns over a term's arguments), not for op dispatchers on raw arrays, where numpy scalar types inherit from both float and numpy.generic.",
    technique="deterministic simulation: monitored dispatch under seeded cache-drop/GC/late-registration histories; cross-world and permuted-registration agreement; order axioms on reached types"),
  "C20": dict(
    engine="immut",
    category="exploration",
-   text="Sessions (fresh fork each) run a generated program interleaved with entries of a 25-entry catalogue of public API calls (optimizer, adjoint, samplers, Gaussian algebra, sum_product family, conversions, Scatter/Stack/Cat/Lambda/Independent, compile, views and slices) under randomly chosen interpretations and faults (exception at the n-th internal call, collection, one declined rule firing, rules disabled on non-ground operands). Two detector configurations run as separate batches: snapshot - before each step every user array and every funsor the session holds is fingerprinted (class, inputs, output, identities of _ast_values, bytes of every reachable array) and re-verified after the step, after every fault and at the end of the run, which catches late writes through views; tripwire - every user-supplied array is read-only, so the first write through an operand or a view of it raises at the offending funsor line, which is reported with its file:line.",
+   text="Sessions (fresh fork each) run a generated program interleaved with entries of a 35-entry catalogue of public API calls (optimizer, adjoint, samplers, Gaussian algebra and keyword constructors from caller-held matrices, sum_product family, conversions, Scatter/Stack/Cat/Lambda/Independent, compile, views and slices, array kernels on zeros of both signs and infinities, factorisations of singular matrices, and an introspective sweep applying every op of funsor.ops to caller-held arrays) under randomly chosen interpretations and faults (exception at the n-th internal call, collection, one declined rule firing, rules disabled on non-ground operands). Two detector configurations run as separate batches: snapshot - before each step every user array and every funsor the session holds is fingerprinted (class, inputs, output, identities of _ast_values, bytes of every reachable array) and re-verified after the step, after every fault and at the end of the run, which catches late writes through views; tripwire - every user-supplied array is read-only, so the first write through an operand or a view of it raises at the offending funsor line, which is reported with its file:line.",
    design_ref="DESIGN.md section 6 (C20)",
    note="lazy_property caches and profiling counters are not part of the snapshot (the property names inputs, output, data). Writes into arrays funsor allocated itself are legal and not observed.",
    technique="deterministic simulation: seeded operation/fault histories with before/after snapshots of every held term and array, plus read-only tripwire arrays"),
  "C17": dict(
    engine="ctxstack",
    category="fault_enumeration",
-   text="An explicit stack model runs beside the real interpretation stack while well-nested trees of context blocks (with/decorator, total and partial, memoize, adjoint tape, MonteCarlo, user-defined) execute; an exception (seven kinds, including KeyboardInterrupt and asyncio.CancelledError, which are not Exception subclasses) is injected between every two body items and at every (capped/sampled) funsor-internal call of every work step and context entry, caught at varying enclosing levels. After every step and unwind: stack identity/depth, restoration of the pre-entry interpretation, layering of partial interpretations, and a behavioural fingerprint of freshly built probe terms. Fault positions are enumerated per tree; trees are exhaustive to 2 (quick) / 3 (thorough) blocks and seeded-random to depth 5/6.",
+   text="An explicit stack model runs beside the real interpretation stack while well-nested trees of context blocks (with / decorator / the deprecated interpretation() helper; total and partial, memoize, Memoize built directly over a partial interpretation, adjoint tape, MonteCarlo, the library's argmax/mean approximation interpretations, user-defined) execute; an exception (seven kinds, including KeyboardInterrupt and asyncio.CancelledError, which are not Exception subclasses) is injected between every two body items and at every (capped/sampled) funsor-internal call of every work step and context entry, caught at varying enclosing levels. After every step and unwind: stack identity/depth, restoration of the pre-entry interpretation, layering of partial interpretations, a behavioural fingerprint of freshly built probe terms, and equal consultation of two user interpretations that differ in name only by the terms library code builds inside their block. Fault positions are enumerated per tree; trees are exhaustive to 2 (quick) / 3 (thorough) blocks and seeded-random to depth 5/6.",
    design_ref="DESIGN.md section 6 (C17)",
    note="Trusted: sys.monitoring delivers PY_START for every funsor Python frame; injected exceptions are subclasses of the real types. Not covered: faults inside Interpretation.__exit__/pop_interpretation, asynchronous exceptions between bytecodes, unnested (generator-interleaved) context use.",
    technique="deterministic simulation: seeded block-tree workloads + enumerated exception injection against an explicit stack model"),
